@@ -2328,9 +2328,12 @@ public:
     SBEPP_CPP20_CONSTEXPR std::size_t operator()(size_bytes_tag) const noexcept
     {
         auto dimension = (*this)(get_header_tag{});
+        // multiply in `std::size_t`, `numInGroup * blockLength` in their own
+        // (promoted) type overflows for large groups
         return sbepp::size_bytes(dimension)
-               + dimension.numInGroup().value()
-                     * dimension.blockLength().value();
+               + static_cast<std::size_t>(dimension.numInGroup().value())
+                     * static_cast<std::size_t>(
+                         dimension.blockLength().value());
     }
 
     //! @brief Returns header's `numInGroup`
